@@ -130,19 +130,6 @@ theorem mapping_phased : ∀ (inputNode : List Nat) (block : List Int) (switched
     simp only [mutationMapping, List.zip_cons_cons, List.zipWith_cons_cons] at ih ⊢
     rw [ih]; simp [hb0]
 
-/-- tskit's contract does **not** give row-by-row equality of the migration table: a `sort` that
-meets `SortRel` may exchange two migration rows (the real one does, for rows of equal time that are
-not in (source, dest, left, node) order). The property's "migration table unchanged" therefore holds
-as a multiset of rows only; see `known_findings.d/C02.json`. -/
-theorem migration_order_not_guaranteed :
-    ∃ (a b : TableCollection Nat), SortRel a b ∧ b.migrations ≠ a.migrations := by
-  let m1 : MigRow Nat := ⟨0, 10, 0, 1, 0, 5, ""⟩
-  let m2 : MigRow Nat := ⟨0, 10, 1, 0, 1, 5, ""⟩
-  let a : TableCollection Nat :=
-    ⟨10, "", "", "", "", [], "", [], "", [], "", [], "", [], "", [], "", [m1, m2], "", []⟩
-  refine ⟨a, { a with migrations := [m2, m1] }, ⟨List.Perm.refl _, List.Perm.refl _, rfl,
-    List.Perm.swap _ _ _, rfl⟩, by decide⟩
-
 /-! ### Non-vacuity: a concrete input on which the model runs, `sort` really permutes rows,
 the hypotheses hold and the conclusions say something. -/
 
@@ -247,5 +234,18 @@ example : ∃ out tr, getModifiedTs env opts input res = some (out, tr) ∧ Fram
       mutation_nodes_kept env swapSort_ok opts input res x.1 x.2 h (by decide)⟩
 
 end Example
+
+/-- tskit's contract does **not** give row-by-row equality of the migration table: a `sort` that
+meets `SortRel` may exchange two migration rows (the real one does, for rows of equal time that are
+not in (source, dest, left, node) order). The property's "migration table unchanged" therefore holds
+as a multiset of rows only; see `known_findings.d/C02.json`. -/
+theorem migration_order_not_guaranteed :
+    ∃ (a b : TableCollection Nat), SortRel a b ∧ b.migrations ≠ a.migrations := by
+  let m1 : MigRow Nat := ⟨0, 10, 0, 1, 0, 5, ""⟩
+  let m2 : MigRow Nat := ⟨0, 10, 1, 0, 1, 5, ""⟩
+  let a : TableCollection Nat :=
+    ⟨10, "", "", "", "", [], "", [], "", [], "", [], "", [], "", [], "", [m1, m2], "", []⟩
+  refine ⟨a, { a with migrations := [m2, m1] }, ⟨List.Perm.refl _, List.Perm.refl _, rfl,
+    List.Perm.swap _ _ _, rfl⟩, by decide⟩
 
 end Tsdate.C02
